@@ -728,6 +728,227 @@ func genLazy(r *hx.RNG) lazyCase {
 	return lc
 }
 
+// ---------- queries that differ in AD/CD/DO in front of a (lazy) cache ----------
+
+type fop struct {
+	age  bool
+	n, f int // name id; flags: AD + 2 CD + 4 DO
+}
+
+func fask(n, f int) fop { return fop{n: n, f: f} }
+func fage(n, f int) fop { return fop{age: true, n: n, f: f} }
+
+// fctx builds the query context of (name, flags, A, IN): AD and CD in the
+// header, DO set on the context's OPT the way a plugin in front would.
+func fctx(n, f int) *query_context.Context {
+	q := new(dns.Msg)
+	q.SetQuestion(lname(n), dns.TypeA)
+	q.AuthenticatedData = f&1 != 0
+	q.CheckingDisabled = f&2 != 0
+	qCtx := query_context.NewContext(q)
+	if f&4 != 0 {
+		qCtx.QOpt().SetDo()
+	}
+	return qCtx
+}
+
+func msgFlags(m *dns.Msg) int {
+	f := 0
+	if m.AuthenticatedData {
+		f |= 1
+	}
+	if m.CheckingDisabled {
+		f |= 2
+	}
+	if o := m.IsEdns0(); o != nil && o.Do() {
+		f |= 4
+	}
+	return f
+}
+
+// runFlag drives [cache; upstream]. The upstream (asked only when there is no
+// response) answers as a function of the full query it receives: one A record
+// of the query's name with the address 10.0.<flags it saw>.<name id>.
+func runFlag(w *hx.Writer, id string, lazy bool, m int, ops []fop) {
+	lazyTTL := 0
+	if lazy {
+		lazyTTL = 86400
+	}
+	c := cache.NewCache(&cache.Args{Size: 1024, LazyCacheTTL: lazyTTL}, cache.Opts{})
+	defer c.Close()
+	var mu sync.Mutex
+	var cur *query_context.Context
+	syncCalled, bgN, bgF := false, -1, -1
+	upstream := sequence.ExecutableFunc(func(_ context.Context, qc *query_context.Context) error {
+		if qc.R() != nil {
+			return nil
+		}
+		q := qc.Q()
+		name := q.Question[0].Name
+		seen := msgFlags(q)
+		mu.Lock()
+		if qc == cur {
+			syncCalled = true
+		} else {
+			bgN, bgF = lid(name), seen
+		}
+		mu.Unlock()
+		r := new(dns.Msg)
+		r.SetReply(q)
+		r.Answer = []dns.RR{&dns.A{
+			Hdr: dns.RR_Header{Name: name, Rrtype: dns.TypeA, Class: dns.ClassINET, Ttl: 300},
+			A:   net.IPv4(10, 0, byte(seen), byte(lid(name))),
+		}}
+		qc.SetResponse(r)
+		return nil
+	})
+	chain := []*sequence.ChainNode{{RE: c}, {E: upstream}}
+	type nf struct{ n, f int }
+	var universe []nf
+	var keys []string
+	for n := 0; n < m; n++ {
+		for f := 0; f < 8; f++ {
+			universe = append(universe, nf{n, f})
+			keys = append(keys, cache.VerifGetMsgKey(fctx(n, f).Q()))
+		}
+	}
+	addr := func(r *dns.Msg) (int, int) {
+		if len(r.Answer) == 1 {
+			if a, ok := r.Answer[0].(*dns.A); ok && a.A.To4() != nil {
+				return int(a.A.To4()[3]), int(a.A.To4()[2])
+			}
+		}
+		return 99, 99
+	}
+	qname := func(r *dns.Msg) int {
+		if len(r.Question) != 1 {
+			return 99
+		}
+		return lid(r.Question[0].Name)
+	}
+	var cops, obs []string
+	for _, o := range ops {
+		if o.age {
+			cops = append(cops, hx.App("FAge", hx.Ni(o.n), hx.Ni(o.f)))
+			obs = append(obs, hx.App("FOAge", hx.Bool(c.VerifC10Backdate(keys[o.n*8+o.f], 400*time.Second))))
+			continue
+		}
+		qCtx := fctx(o.n, o.f)
+		mu.Lock()
+		cur, syncCalled, bgN, bgF = qCtx, false, -1, -1
+		mu.Unlock()
+		walker := sequence.NewChainWalker(chain, nil)
+		if err := walker.ExecNext(context.Background(), qCtx); err != nil {
+			fail(id, "chain: %v", err)
+		}
+		if !joinLazy(c, keys) {
+			abortCase(w, id, "a lazy update can not be joined")
+			return
+		}
+		r := qCtx.R()
+		if r == nil {
+			abortCase(w, id, "no response")
+			return
+		}
+		an, af := addr(r)
+		mu.Lock()
+		sc, bn, bf := syncCalled, bgN, bgF
+		mu.Unlock()
+		cops = append(cops, hx.App("FAsk", hx.Ni(o.n), hx.Ni(o.f)))
+		obs = append(obs, hx.App("FOAsk", hx.Ni(qname(r)), hx.Ni(an), hx.Ni(af), hx.Bool(sc),
+			hx.Opt(bn >= 0, hx.Tuple(hx.Ni(bn), hx.Ni(bf)))))
+	}
+	var held []string
+	wrong := 0
+	for i, k := range keys {
+		it := c.VerifC10Item(k)
+		if it == nil {
+			continue
+		}
+		an, af := addr(it)
+		if an != universe[i].n || af != universe[i].f || qname(it) != universe[i].n {
+			wrong++
+		}
+		held = append(held, hx.Tuple(hx.Tuple(hx.Ni(universe[i].n), hx.Ni(universe[i].f)),
+			hx.Tuple(hx.Ni(qname(it)), hx.Ni(an), hx.Ni(af))))
+	}
+	w.Emit("flag", hx.Case{
+		ID:   id,
+		Coq:  hx.App("CFlag", hx.Bool(lazy), hx.Ni(m), hx.List(cops), hx.List(obs), hx.List(held)),
+		Desc: map[string]any{"kind": "flag", "lazy": lazy, "steps": len(ops), "held_for_other_flags": wrong},
+		FKey: "flag",
+	})
+}
+
+type flagCase struct {
+	lazy bool
+	m    int
+	ops  []fop
+}
+
+func flagCatalogue() []flagCase {
+	var out []flagCase
+	for _, lazy := range []bool{true, false} {
+		for f := 0; f < 8; f++ {
+			// store, let it go stale, stale hit (refresh), the same query again, its unflagged sibling
+			out = append(out, flagCase{lazy, 1, []fop{fask(0, f), fage(0, f), fask(0, f), fask(0, f), fask(0, f&4), fask(0, f)}})
+		}
+		// all flag combinations side by side, all stale, all refreshed, all asked again
+		var all []fop
+		for f := 0; f < 8; f++ {
+			all = append(all, fask(0, f))
+		}
+		for f := 0; f < 8; f++ {
+			all = append(all, fage(0, f))
+		}
+		for f := 7; f >= 0; f-- {
+			all = append(all, fask(0, f))
+		}
+		for f := 0; f < 8; f++ {
+			all = append(all, fask(0, f))
+		}
+		out = append(out, flagCase{lazy, 1, all})
+		// stale twice; two names
+		out = append(out,
+			flagCase{lazy, 1, []fop{fask(0, 3), fage(0, 3), fask(0, 3), fage(0, 3), fask(0, 3), fask(0, 0), fask(0, 3)}},
+			flagCase{lazy, 2, []fop{fask(0, 2), fask(1, 2), fask(1, 1), fage(0, 2), fage(1, 1), fask(1, 1), fask(0, 2), fask(1, 2), fask(1, 1), fask(0, 2)}},
+			flagCase{lazy, 1, []fop{fask(0, 0), fask(0, 2), fage(0, 0), fask(0, 0), fask(0, 2), fage(0, 2), fask(0, 2), fask(0, 0), fask(0, 2)}},
+		)
+	}
+	return out
+}
+
+func genFlag(r *hx.RNG) flagCase {
+	fc := flagCase{lazy: r.Chance(4, 5), m: r.Range(1, 2)}
+	// a few (name, flags) pairs so that repeats are frequent
+	type nf struct{ n, f int }
+	pool := []nf{{r.Intn(fc.m), r.Intn(8)}}
+	for np := r.Range(2, 4); len(pool) < np; {
+		b := pool[r.Intn(len(pool))]
+		switch r.Intn(4) {
+		case 0:
+			pool = append(pool, nf{b.n, b.f ^ (1 << r.Intn(3))})
+		case 1:
+			pool = append(pool, nf{(b.n + 1) % fc.m, b.f})
+		default:
+			pool = append(pool, nf{r.Intn(fc.m), r.Intn(8)})
+		}
+	}
+	n := r.Range(5, 12)
+	for i := 0; i < n; i++ {
+		p := hx.Pick(r, pool)
+		if r.Chance(1, 3) {
+			fc.ops = append(fc.ops, fage(p.n, p.f))
+		} else {
+			fc.ops = append(fc.ops, fask(p.n, p.f))
+		}
+	}
+	for _, p := range pool {
+		fc.ops = append(fc.ops, fask(p.n, p.f))
+	}
+	return fc
+}
+
 // ---------- a response already in the context / dual_selector in front of the cache ----------
 
 type q3 struct {
@@ -1509,6 +1730,26 @@ func main() {
 		}
 		lc := genLazy(hx.NewRNG(o.Seed, id))
 		runLazy(w, id, lc.lazy, lc.m, lc.rules, lc.ops)
+	}
+
+	// AD/CD/DO in front of a (lazy) cache with a flag-sensitive upstream
+	for i, fc := range flagCatalogue() {
+		id := fmt.Sprintf("cat:flag:%d", i)
+		if o.Want(id) && !joinBroken {
+			runFlag(w, id, fc.lazy, fc.m, fc.ops)
+		}
+	}
+	nf := o.Count(60, 3000)
+	if o.N > 0 {
+		nf = o.N / 10
+	}
+	for i := 0; i < nf; i++ {
+		id := fmt.Sprintf("flag:%d", i)
+		if !o.Want(id) || joinBroken {
+			continue
+		}
+		fc := genFlag(hx.NewRNG(o.Seed, id))
+		runFlag(w, id, fc.lazy, fc.m, fc.ops)
 	}
 
 	// a response already in the context / dual_selector in front of the cache
